@@ -278,6 +278,21 @@ Proof.
   - apply (bool_decide_unpack _). vm_compute. reflexivity.
   - apply unroll_names_okb_spec. vm_compute. reflexivity.
 Qed.
+Example C09_ex_seq_iv : iv_ok ex_F (IvAll C0) ∧ iv_addable (IvAll C0) ∧ iv_nodup (IvAll C0) ∧
+  iv_ok ex_F (IvDict [("ff", C1)]) ∧ iv_addable (IvDict [("ff", C1)]) ∧ iv_nodup (IvDict [("ff", C1)]).
+Proof.
+  split; [done|]. split; [apply (bool_decide_unpack _); vm_compute; reflexivity|]. split; [done|].
+  split; [intros kt ->%elem_of_list_singleton; apply (bool_decide_unpack _); vm_compute; reflexivity|].
+  split; [intros kt ->%elem_of_list_singleton; apply (bool_decide_unpack _); vm_compute; reflexivity|].
+  apply (bool_decide_unpack _). vm_compute. reflexivity.
+Qed.
+(* what the model returns for it: the unloaded clock input is swept, the step-0 Q node is the constant 0, the D copies are outputs *)
+Example C09_ex_seq_result :
+  match sequential_unroll ex_F 2 "d" "q" [] true (IvAll C0) true "cg_unroll" with
+  | Ok (U, m) => bool_decide (dom m = {[ "a"; "ff_d"; "ff_q"; "o" ]}) && bool_decide (ty (c_g U) "ff_q_cg_unroll_0" = Some C0) &&
+                 bool_decide ("ff_d_cg_unroll_1" ∈ outputs (c_g U)) && bool_decide (size (c_g U) = 18)
+  | _ => false end = true.
+Proof. vm_compute. reflexivity. Qed.
 (* the flop circuit really runs: q0 = 0, a = 1 in both cycles: o = 1, then (q = 1) o = 0 *)
 Example C09_ex_flop_run : let ins := λ t i, bool_decide (i = "a") in
   flop_run ex_F "d" "q" 0 (λ _, false) ins "o" = true ∧ flop_run ex_F "d" "q" 1 (λ _, false) ins "o" = false.
